@@ -121,6 +121,11 @@ class H11Protocol:
                 # shutdown), a request in it cannot be responded to and
                 # must therefore not be started.
                 return
+            if self.connection.their_state is h11.MUST_CLOSE and event.data != b"":
+                # The final request has been received in full, nothing the
+                # client sends after it is ever parsed (see below) and so
+                # must not be kept either.
+                return
             self.connection.receive_data(event.data)
             await self._handle_events()
         elif isinstance(event, Closed):
